@@ -1,2 +1,24 @@
-(** C18 placeholder *)
-From GoSh Require Import Base.Bytes.
+(** C18 — Printing is an idempotent, deterministic normal form; the AST stays untouched. *)
+From GoSh Require Import Print.Bufio.
+From Coq Require Import List.
+
+(** A writer that fails before the whole output has been accepted is reported by Fprint: the
+    buffered writer's first error is sticky and the final Flush returns it -- for every sequence of
+    writes, every buffering schedule (when and how much is handed to the underlying writer) and
+    every failure point below the output length. *)
+Theorem C18_failing_writer_reported :
+  forall ops limit, (limit < written ops)%nat -> failed (fprint ops limit) = true.
+Proof. exact failing_writer_reported. Qed.
+Print Assumptions C18_failing_writer_reported.
+
+(** The separators that the printer hides temporarily (trim) are all restored by the deferred
+    undos, in whatever nesting, also when the same node is trimmed twice: the tree is unchanged
+    after Fprint returns. *)
+Theorem C18_trim_undo_identity :
+  forall is seps, fold_left undo (snd (trims seps is)) (fst (trims seps is)) = seps.
+Proof. exact trims_then_undos_restore. Qed.
+Print Assumptions C18_trim_undo_identity.
+
+(** Not proved: idempotence of the layout (print o parse o print = print); decided on every run
+    on generated programs under all 256 Configs, together with determinism and the deep comparison
+    of the tree before and after printing. *)
